@@ -832,7 +832,7 @@ static void ed_do (object_t * ob, const char *cmd0, const char *arg)
 }
 
 /* an editing session: ed (file) and then the commands c1,c2,... (a:<text> | e[:name] | E[:name] | f[:name] |
- * r[:name] | w[:name] | W[:name] | x | q | Q); every command that is executed is announced as
+ * r[:name] | w[:name] | W[:name] | x | q | Q | D:name = net-dead, the master names the save file); every command that is executed is announced as
  * `call ed <who> [<command>] [<argument>]`; a silent "Q" ends whatever is left of the session */
 static void ed_session (object_t * ob, const char *file, char *cmds)
 {
@@ -863,7 +863,28 @@ static void ed_session (object_t * ob, const char *file, char *cmds)
       if (!ob->interactive || !ob->interactive->ed_buffer)
 	break;
       vh_out ("call ed /c15/obj [%s] [%s]", c, arg);
-      if (!strcmp (c, "a"))
+      if (!strcmp (c, "D"))
+	{
+	  /* the editing user goes net-dead: save_ed_buffer () writes the buffer where the master's
+	     get_ed_buffer_save_file_name () says (here: <arg>) and the session is over */
+	  error_context_t econ;
+	  char *a1[1];
+	  a1[0] = arg;
+	  vh_apply_str (master_ob, "set_dead_name", 1, a1, 0, 0);
+	  save_context (&econ);
+	  if (!setjmp (econ.context))
+	    {
+	      command_giver = ob;
+	      save_ed_buffer (ob);
+	      pop_context (&econ);
+	    }
+	  else
+	    {
+	      restore_context (&econ);
+	      pop_context (&econ);
+	    }
+	}
+      else if (!strcmp (c, "a"))
 	{
 	  ed_do (ob, "a", "");
 	  ed_do (ob, "", arg);
